@@ -4,7 +4,8 @@ is always schema-valid and consistent with the driver's table."""
 import json, os, subprocess
 
 V = os.path.dirname(os.path.dirname(os.path.abspath(__file__)))
-checks = json.load(open(os.path.join(V, "checks.json")))
+import glob
+checks = {os.path.basename(f)[:-5]: json.load(open(f)) for f in sorted(glob.glob(os.path.join(V, "checks.d", "C*.json")))}
 props = [json.loads(l) for l in open(os.path.join(V, "properties.jsonl"))]
 na_path = os.path.join(V, "not_applicable.json")
 na = json.load(open(na_path)) if os.path.exists(na_path) else {}
